@@ -103,8 +103,18 @@ func (fc *FnCtx) unknownCall(fr *Frame, st *State, reach, what string, resT *typ
 				if a.A.Kind == AObj && fc.eng.isRepoType(a.A.Root) {
 					ptrArg = true
 				}
-			case KIface, KFunc:
-				// could hold tchannel objects / call back; treated as no effect (A-EXT)
+			case KIface:
+				// a statically known tchannel object behind an interface may be called back
+				var id int
+				if _, err := fmt.Sscanf(a.Tag, "%d", &id); err == nil && fmt.Sprint(id) == a.Tag {
+					if t := fc.tagTypes[id]; t != nil && fc.eng.isRepoType(t) {
+						ptrArg = true
+					}
+				}
+			case KFunc:
+				if a.Fn != nil && fc.eng.inRepo(a.Fn) {
+					ptrArg = true
+				}
 			}
 		}
 		if ptrArg {
@@ -123,7 +133,7 @@ func (fc *FnCtx) havocElems(st *State, s Val) {
 	a := &Addr{Kind: AElem, Base: s.Arr, Idx: "0", ElemT: et, T: et}
 	base, _ := fc.addrBase(a)
 	walkVal(buildVal(et, "", func(suffix, sort string, t types.Type) string { return "" }), "", func(suffix, sort, term string, t types.Type) {
-		l := loc{name: base + suffix, idx: []string{"", ""}, sort: sort}
+		l := loc{name: lname(base, suffix), idx: []string{"", ""}, sort: sort}
 		cur := fc.heapTerm(st, l.name, l.arraySort())
 		inner := fc.sc.fresh("hv", "(Array Int "+sort+")")
 		oldInner := tSel(cur, s.Arr)
@@ -263,7 +273,7 @@ func (fc *FnCtx) appendOp(fr *Frame, st *State, reach string, s, extra Val) Val 
 	a := &Addr{Kind: AElem, Base: s.Arr, Idx: "0", ElemT: et, T: et}
 	base, _ := fc.addrBase(a)
 	walkVal(buildVal(et, "", func(suffix, sort string, t types.Type) string { return "" }), "", func(suffix, sort, term string, t types.Type) {
-		l := loc{name: base + suffix, idx: []string{"", ""}, sort: sort}
+		l := loc{name: lname(base, suffix), idx: []string{"", ""}, sort: sort}
 		cur := fc.heapTerm(st, l.name, l.arraySort())
 		inner := fc.sc.fresh("appi", "(Array Int "+sort+")")
 		oldInner := tSel(cur, s.Arr)
@@ -298,7 +308,7 @@ func (fc *FnCtx) copyOp(fr *Frame, st *State, reach string, dst, src Val) Val {
 	a := &Addr{Kind: AElem, Base: dst.Arr, Idx: "0", ElemT: et, T: et}
 	base, _ := fc.addrBase(a)
 	walkVal(buildVal(et, "", func(suffix, sort string, t types.Type) string { return "" }), "", func(suffix, sort, term string, t types.Type) {
-		l := loc{name: base + suffix, idx: []string{"", ""}, sort: sort}
+		l := loc{name: lname(base, suffix), idx: []string{"", ""}, sort: sort}
 		cur := fc.heapTerm(st, l.name, l.arraySort())
 		inner := fc.sc.fresh("cpy", "(Array Int "+sort+")")
 		oldInner := tSel(cur, dst.Arr)
@@ -309,6 +319,7 @@ func (fc *FnCtx) copyOp(fr *Frame, st *State, reach string, dst, src Val) Val {
 			fc.sc.assume("(forall ((j Int)) (! (=> (and (<= 0 j) (< j " + n + ")) (= (select " + inner + " (+ " + dst.Off + " j)) (select " + srcInner + " (+ " + src.Off + " j)))) :pattern ((select " + inner + " (+ " + dst.Off + " j)))))")
 		} else {
 			fc.sc.assume("(forall ((j Int)) (! (=> (and (<= 0 j) (< j " + n + ")) (= (select " + inner + " (+ " + dst.Off + " j)) (str.to_code (str.at " + src.S + " j)))) :pattern ((select " + inner + " (+ " + dst.Off + " j)))))")
+			fc.sc.assume(tEq(sx("str_of_bytes", inner, dst.Off, n), sx("str.substr", src.S, "0", n)))
 		}
 		st.heap[l.name] = fc.nameTerm("hc", l.arraySort(), tStore(cur, dst.Arr, inner))
 		fc.noteWrite(l.name)
